@@ -954,7 +954,7 @@ pub fn op_strategy(focus: Focus) -> BoxedStrategy<Op> {
     };
     prop_oneof![
         4 => (0u8..8, 0u8..10, 1u32..400_000).prop_map(|(from, party, milli)| Op::AddBalance { from, party, milli }),
-        w_wd => (0u8..8, 0u8..10, prop_oneof![3 => 0u16..1000, 1 => Just(1000u16), 1 => 1001u16..1500], prop_oneof![15 => Just(false), 1 => Just(true)])
+        w_wd => (0u8..10, 0u8..10, prop_oneof![3 => 0u16..1000, 1 => Just(1000u16), 1 => 1001u16..1500], prop_oneof![15 => Just(false), 1 => Just(true)])
             .prop_map(|(caller, party, pm, negative)| Op::Withdraw { caller, party, pm, negative }),
         w_pub => (0u8..12, proptest::collection::vec(deal_spec(8), 1..4)).prop_map(|(caller, deals)| Op::Publish { caller, deals }),
         w_act => (0u8..2, any::<bool>(), proptest::collection::vec((0u8..8, prop_oneof![5 => 0i8..3, 1 => -2i8..0], proptest::collection::vec(any::<u16>(), 1..3)).prop_map(|(sector, expiry_rel, deals)| SectorSpec { sector, expiry_rel, deals }), 1..3), prop_oneof![12 => Just(false), 1 => Just(true)])
